@@ -538,6 +538,14 @@ class C05(Check):
         every vector clause is then checked (an object that accepted a partner must still round-trip)."""
         o = st["obj"]
         partner = L.transform((op[2], st["obs"]["n_dims"], 7), self.seed)
+        # the object has been vectorised before it is changed (anything memoised by as_vector / n_parameters / str
+        # must not survive the change) - also when this step is replayed without its oracle
+        try:
+            o.as_vector()
+            o.n_parameters
+            str(o)
+        except Exception:  # noqa - classes that cannot be vectorised in this dimension
+            pass
         try:
             if op[1] == "before":
                 o.compose_before_inplace(partner)
